@@ -263,7 +263,7 @@ fn oracle(lib: &LefLibrary, f: &Flags, ctx: &mut Ctx) -> Result<(), String> {
     }
     ctx.sample("LEF library", || {
         let mut s = format!("{:?}", lib.macros);
-        s.truncate(1200);
+        crate::engine::clip(&mut s, 1200);
         s
     });
     if rl.units != raw::Units::Angstrom {
